@@ -266,11 +266,9 @@ def run(tier='quick', seed=0):
     st = sorted(spec_types().items())
     names = sorted(elem.element_table())
     ctasks = [(st[i:i + 20], 'simple') for i in range(0, len(st), 20)] + [(names[i:i + 30], 'class') for i in range(0, len(names), 30)]
-    with ctx.Pool(processes=min(16, os.cpu_count() or 4), maxtasksperchild=1) as pool:
-        for obs in pool.imap_unordered(type_task, tasks, chunksize=1):
-            all_obs.extend(obs)
-        for obs in pool.imap_unordered(class_task, ctasks, chunksize=1):
-            all_obs.extend(obs)
+    from ..par import collect
+    all_obs.extend(collect(type_task, tasks, 1, 900, lambda t, why: dict(oid=f'C13/worker/{t[0]}', status='undecided', detail=why, paths=0, name=t[1], kind='frame')))
+    all_obs.extend(collect(class_task, ctasks, 1, 900, lambda t, why: dict(oid=f'C13/worker/{t[1]}/{str(t[0][0])[:40]}', status='undecided', detail=why, paths=0, name=None, kind='class')))
     from .mprop import replay_history_source
     for o in sorted(all_obs, key=lambda o: o['oid']):
         ob = report.Ob(o['oid'], o['status'], level='bounded' if o['kind'] == 'frame' else 'finite-complete', backend='state-differencing', detail=o.get('detail'), paths=o.get('paths', 0))
